@@ -263,6 +263,158 @@ func c13Cases(seed int64, thorough bool) []c13Case {
 		}
 		return fmt.Sprintf("%x", h)
 	}})
+	// loop-filter kernels on structured edges: every entry (simple / normal, vertical / horizontal, macroblock edge /
+	// inner edges, luma / chroma) on blocks whose rows or columns next to the edge are random, flat, equal across the
+	// edge (p0 == q0 on the whole edge, outer rows differing), steps around the thresholds, and saturating values
+	cs = append(cs, c13Case{"kernel:loop filters (simple+normal, V+H, edge+inner, luma+chroma) on structured edges", func() string {
+		h := uint64(0)
+		const stride = 64
+		frng := rand.New(rand.NewSource(seed + 77))
+		mk := func(class int) []byte {
+			b := make([]byte, stride*48)
+			frng.Read(b)
+			switch class {
+			case 1: // both sides of every 4-row / 4-column boundary equal (p0 == q0), the rows beyond differ
+				for y := 0; y < 48; y++ {
+					for x := 0; x < stride; x++ {
+						v := byte(40 + 6*(y/4*4%7) + 5*(x/4*4%5))
+						switch {
+						case y%4 == 3 || y%4 == 0:
+							b[y*stride+x] = 120
+						default:
+							b[y*stride+x] = v + byte(frng.Intn(9))
+						}
+					}
+				}
+				for y := 0; y < 48; y++ {
+					for x := 0; x < stride; x++ {
+						if x%4 == 3 || x%4 == 0 {
+							b[y*stride+x] = 120
+						}
+					}
+				}
+			case 2: // small steps around the thresholds
+				for y := 0; y < 48; y++ {
+					for x := 0; x < stride; x++ {
+						b[y*stride+x] = byte(100 + (y/4)*3 + (x/4)*2 + frng.Intn(4))
+					}
+				}
+			case 3: // saturating: 0 / 255 blocks
+				for y := 0; y < 48; y++ {
+					for x := 0; x < stride; x++ {
+						b[y*stride+x] = byte(255 * (((y / 4) + (x / 4)) % 2))
+						if frng.Intn(5) == 0 {
+							b[y*stride+x] ^= byte(frng.Intn(6))
+						}
+					}
+				}
+			case 4: // flat
+				for k := range b {
+					b[k] = 77
+				}
+			}
+			return b
+		}
+		base := 16*stride + 16
+		for class := 0; class <= 4; class++ {
+			for _, th := range []int{0, 1, 2, 3, 5, 9, 14, 20, 33, 48, 63, 80, 127} {
+				for _, ith := range []int{0, 1, 3, 9, 20, 63} {
+					hev := []int{0, 1, 2, 5}[(th+ith)%4]
+					src := mk(class)
+					run := func(f func(p []byte)) {
+						d := append([]byte(nil), src...)
+						f(d)
+						h = h*1099511628211 ^ hashBytes(d)
+					}
+					if ith == 0 {
+						run(func(d []byte) { dsp.SimpleVFilter16(d, base, stride, th) })
+						run(func(d []byte) { dsp.SimpleHFilter16(d, base, stride, th) })
+						run(func(d []byte) { dsp.SimpleVFilter16i(d, base, stride, th) })
+						run(func(d []byte) { dsp.SimpleHFilter16i(d, base, stride, th) })
+					}
+					run(func(d []byte) { dsp.VFilter16(d, base, stride, th, ith, hev) })
+					run(func(d []byte) { dsp.HFilter16(d, base, stride, th, ith, hev) })
+					run(func(d []byte) { dsp.VFilter16i(d, base, stride, th, ith, hev) })
+					run(func(d []byte) { dsp.HFilter16i(d, base, stride, th, ith, hev) })
+					run(func(d []byte) { dsp.VFilter8(d, d, base, base+24, stride, th, ith, hev) })
+					run(func(d []byte) { dsp.HFilter8(d, d, base, base+24*stride, stride, th, ith, hev) })
+					run(func(d []byte) { dsp.VFilter8i(d, d, base, base+24, stride, th, ith, hev) })
+					run(func(d []byte) { dsp.HFilter8i(d, d, base, base+24*stride, stride, th, ith, hev) })
+				}
+			}
+		}
+		return fmt.Sprintf("%x", h)
+	}})
+	// chroma upsampling + YUV->NRGBA conversion of line pairs: every luma value, chroma neutral / constant / random /
+	// neutral runs between coloured pixels, widths around every SIMD group size, with and without a bottom line
+	cs = append(cs, c13Case{"kernel:UpsampleLinePairNRGBA (luma sweep x chroma classes x widths)", func() string {
+		h := uint64(0)
+		urng := rand.New(rand.NewSource(seed + 78))
+		var widths []int
+		for w := 1; w <= 40; w++ {
+			widths = append(widths, w)
+		}
+		widths = append(widths, 63, 64, 65, 100, 257)
+		for _, w := range widths {
+			cw := (w + 1) / 2
+			for cc := 0; cc < 5; cc++ {
+				for lc := 0; lc < 4; lc++ {
+					ty, by := make([]byte, w), make([]byte, w)
+					for x := 0; x < w; x++ {
+						switch lc {
+						case 0:
+							ty[x], by[x] = byte(x*7+w*3+cc*11), byte(255-x*5-w)
+						case 1:
+							ty[x], by[x] = byte(urng.Intn(256)), byte(urng.Intn(256))
+						case 2:
+							ty[x], by[x] = []byte{86, 159, 232, 16, 235}[(x/4+w)%5], []byte{232, 86, 159, 0, 255}[(x/3)%5]
+						default:
+							ty[x], by[x] = byte(80+x%16), byte(150+x%16)
+						}
+					}
+					tu, tv, bu, bv := make([]byte, cw), make([]byte, cw), make([]byte, cw), make([]byte, cw)
+					for x := 0; x < cw; x++ {
+						switch cc {
+						case 0:
+							tu[x], tv[x], bu[x], bv[x] = 128, 128, 128, 128
+						case 1:
+							tu[x], tv[x], bu[x], bv[x] = 90, 200, 90, 200
+						case 2:
+							tu[x], tv[x], bu[x], bv[x] = byte(urng.Intn(256)), byte(urng.Intn(256)), byte(urng.Intn(256)), byte(urng.Intn(256))
+						case 3: // neutral runs between coloured pixels
+							if (x/5)%2 == 0 {
+								tu[x], tv[x], bu[x], bv[x] = 128, 128, 128, 128
+							} else {
+								tu[x], tv[x], bu[x], bv[x] = byte(60+x), byte(190-x), byte(61+x), byte(188-x)
+							}
+						default: // extremes
+							tu[x], tv[x], bu[x], bv[x] = byte(255*(x%2)), byte(255*((x/2)%2)), byte(255*((x+1)%2)), 0
+						}
+					}
+					for _, withBot := range []bool{true, false} {
+						for _, withAlpha := range []bool{false, true} {
+							td, bd := make([]byte, 4*w), make([]byte, 4*w)
+							var at, ab []byte
+							if withAlpha {
+								at, ab = make([]byte, w), make([]byte, w)
+								for x := range at {
+									at[x], ab[x] = byte(x*13+w), byte(255-x*3)
+								}
+							}
+							if withBot {
+								dsp.UpsampleLinePairNRGBA(ty, by, tu, tv, bu, bv, td, bd, at, ab, w)
+							} else {
+								dsp.UpsampleLinePairNRGBA(ty, nil, tu, tv, bu, bv, td, nil, at, nil, w)
+							}
+							h = (h*1099511628211 ^ hashBytes(td)) * 31
+							h ^= hashBytes(bd)
+						}
+					}
+				}
+			}
+		}
+		return fmt.Sprintf("%x", h)
+	}})
 	// ---- pipeline level ----
 	enc := func(name string, img image.Image, o webp.EncoderOptions) {
 		cs = append(cs, c13Case{"Encode+Decode:" + name, func() string {
